@@ -8,7 +8,7 @@
     (which test [is_finite] of a quotient) are stated generically over the scalar type, so that
     they also hold for the binary64 instance.  Rounding is outside these theorems. *)
 From Coq Require Import ZArith Reals List Bool Floats Sorting.Sorted Lra Lia.
-From KV Require Import Scalar RInst F64 Solvers C15_proofs C15_f64.
+From KV Require Import Scalar RInst F64 Solvers C15_proofs C15_f64 C15_quartic.
 Import ListNotations.
 Local Open Scope R_scope.
 
@@ -135,6 +135,58 @@ Theorem C15_solve_quartic_partial : forall c0 c1 c2 c3 c4 : R,
                                   (c0 / c4 / powerRZ sv_K_Q 4) true = Some r) ->
    forall x, quartic_poly c0 c1 c2 c3 c4 x = 0 -> In x l).
 Proof. exact solve_quartic_general. Qed.
+
+(** *** The factoring step over the reals (Orellana-De Michele), non-rescaled call.
+    The hypothesis [factoring_exact] of the partial theorem above is DISCHARGED on the main path:
+
+    - [C15_depressed_cubic_dominant_exact]: for ordinary magnitudes (|g/3| < 1e102, |h/2| < 1e154:
+      the branch [k = None]) the value returned by depressed_cubic_dominant is an exact root of
+      t^3 + g t + h (trigonometric branch via cos 3θ and cos(acos); Cardano branch via a b = q;
+      the Newton refinement stops at once on an exact root);
+    - [C15_quartic_exact_given_resolvent_root]: if phi is an exact root of the resolvent cubic
+      (coefficients g, h: translation invariant, so the shift s drops out), d_2 is zero or not
+      "negligible", and d - l_3^2 <= 0 when d_2 = 0, then whatever factor_quartic_inner returns
+      multiplies out to the quartic: the first (d_2, l_2) candidate is exact and is kept, the
+      beta/alpha re-derivations and the Newton polish leave an exact factorisation unchanged;
+    - [C15_factor_quartic_inner_exact]: both together, no hypothesis left, only guards;
+    - [C15_solve_quartic_main_path]: solve_quartic returns exactly the real roots when the first
+      factoring attempt succeeds.
+    Still unproved: the rescaled retries (K_Q, K_C: they only matter for overflow, which the real
+    instance does not have; [C15_solve_quartic_partial] covers them relative to [factoring_exact]),
+    the large-magnitude branch [k = Some _] of depressed_cubic_dominant, and "the attempt fails
+    (d_2 > 0) => no real root". *)
+Theorem C15_depressed_cubic_dominant_exact : forall g h : R,
+  Rabs (-1 / 3 * g) < IZR (10 ^ 102) -> Rabs (1 * / 2 * h) < IZR (10 ^ 154) ->
+  let x := depressed_cubic_dominant g h in x * x * x + g * x + h = 0.
+Proof. exact dcd_exact. Qed.
+
+Theorem C15_quartic_exact_given_resolvent_root : forall (a b c d : R) qs,
+  let phi := depressed_cubic_dominant (q_g a b c d) (q_h a b c d) in
+  phi * phi * phi + q_g a b c d * phi + q_h a b c d = 0 ->
+  (q_d2 a b phi = 0 \/ fq_d2_negligible b phi (q_l1 a) (q_d2 a b phi) = false) ->
+  (q_d2 a b phi = 0 -> d - q_l3 b phi * q_l3 b phi <= 0) ->
+  factor_quartic_inner a b c d false = Some qs -> quartic_factors_exact a b c d qs.
+Proof. exact factor_quartic_inner_exact. Qed.
+
+Theorem C15_factor_quartic_inner_exact : forall (a b c d : R) qs,
+  Rabs (-1 / 3 * q_g a b c d) < IZR (10 ^ 102) -> Rabs (1 * / 2 * q_h a b c d) < IZR (10 ^ 154) ->
+  let phi := depressed_cubic_dominant (q_g a b c d) (q_h a b c d) in
+  (q_d2 a b phi = 0 \/ fq_d2_negligible b phi (q_l1 a) (q_d2 a b phi) = false) ->
+  (q_d2 a b phi = 0 -> d - q_l3 b phi * q_l3 b phi <= 0) ->
+  factor_quartic_inner a b c d false = Some qs -> quartic_factors_exact a b c d qs.
+Proof. exact factor_quartic_inner_exact_main. Qed.
+
+Theorem C15_solve_quartic_main_path : forall c0 c1 c2 c3 c4 : R,
+  c4 <> 0 -> c0 <> 0 ->
+  let a := c3 / c4 in let b := c2 / c4 in let c := c1 / c4 in let d := c0 / c4 in
+  Rabs (-1 / 3 * q_g a b c d) < IZR (10 ^ 102) -> Rabs (1 * / 2 * q_h a b c d) < IZR (10 ^ 154) ->
+  let phi := depressed_cubic_dominant (q_g a b c d) (q_h a b c d) in
+  (q_d2 a b phi = 0 \/ fq_d2_negligible b phi (q_l1 a) (q_d2 a b phi) = false) ->
+  (q_d2 a b phi = 0 -> d - q_l3 b phi * q_l3 b phi <= 0) ->
+  factor_quartic_inner a b c d false <> None ->
+  let l := solve_quartic c0 c1 c2 c3 c4 in
+  (length l <= 4)%nat /\ forall x, In x l <-> quartic_poly c0 c1 c2 c3 c4 x = 0.
+Proof. exact solve_quartic_main_path. Qed.
 
 (** ** ITP *)
 
@@ -271,6 +323,33 @@ Example C15_ex_itp_collapsed_bracket :
   solve_itp (T:=float) 1 (fun x => x - 1) 1 0x1.0000000000001p+0 0x1p-80 0 0x1.999999999999ap-3 (-0x1p-60) 0x1p-60
   = Some (0x1p-1 * (1 + 0x1.0000000000001p+0)).
 Proof. vm_compute. reflexivity. Qed.
+
+(** the guards of C15_factor_quartic_inner_exact on a concrete quartic, (x-1)(x-2)(x-3)(x-4),
+    evaluated on the binary64 instance: the resolvent root is a root to rounding, d_2 < 0 and not
+    negligible, the factoring succeeds *)
+Example C15_ex_quartic_guards :
+  let '(g, h) := fq_gh (T:=float) (-10) 35 (-50) 24 false in
+  let phi := depressed_cubic_dominant g h in
+  let l_1 := (-10) * 0x1p-1 in
+  let d_2 := 2 / 3 * 35 - phi - l_1 * l_1 in
+  PrimFloat.ltb (abs (phi * phi * phi + g * phi + h)) 0x1p-40 && PrimFloat.ltb d_2 0
+  && negb (fq_d2_negligible 35 phi l_1 d_2)
+  && match factor_quartic_inner (T:=float) (-10) 35 (-50) 24 false with Some _ => true | None => false end = true.
+Proof. vm_compute. reflexivity. Qed.
+
+(** Observation (outside the property: epsilon must be a positive resolution the floats can
+    reach): with epsilon below 2^-1023 of the bracket -- sub-normal or zero -- the repaired
+    solve_itp still does not return.  nmax saturates, scaled_epsilon = epsilon * 2^1023 is below
+    (b-a)/2, so r < 0, the projected point lands on an end point, f there has the old sign, the
+    bracket does not move and the midpoint stays strictly inside.  The model reproduces it (fuel
+    runs out); C15_solve_itp_spec_1023 excludes it by its guard nmax <= 1023 (here n1_2 >= 1029).
+    epsilon = 1e-307 returns. *)
+Example C15_ex_itp_subnormal_epsilon :
+  let f := fun x : float => x * x - 2 in
+  solve_itp 5000 f 1 2 0x0.012688b70e62bp-1022 1 0x1.999999999999ap-3 (-1) 2 = None /\      (* 1e-310 *)
+  solve_itp 5000 f 1 2 0 1 0x1.999999999999ap-3 (-1) 2 = None /\
+  solve_itp 5000 f 1 2 0x1.1fa182c40c60dp-1020 1 0x1.999999999999ap-3 (-1) 2 = Some 0x1.6a09e667f3bccp+0. (* 1e-307 *)
+Proof. vm_compute. repeat split. Qed.
 Local Close Scope float_scope.
 
 Example C15_ex_itp_hypotheses :
